@@ -84,7 +84,7 @@ K_BOGUS = 11
 K_BUG = 12
 _NK = 13
 _NCOMB = pick(3, 4)
-_NKC = pick(12, 13)  # chain item, quick: without the KeyError kind (propagates exactly like PermissionError)
+_NKC = pick(11, 13)  # chain item, quick: without the bogus-attribute kind (a bare ValueError to the chain) and the KeyError kind (propagates like PermissionError)
 
 
 class _BogusReason(ValueError):
@@ -643,6 +643,7 @@ def rejection_is_spec_401(k: int, cfg: int, accept_present: bool, accept: str, d
 
 
 _REJ = [1, 2, 3, 4, 5, 6, K_VALUE, K_PERM, K_PROOF, K_BOGUS]  # the outcomes that are rejections (401)
+_NR1 = pick(6, 10)  # first failure, quick: the six AuthFailure reasons
 _REJ2 = [1, 3, K_VALUE, K_PROOF]  # second failure: missing / expired / unclassified / proxy proof
 _CFG2 = [0, 2]  # no proxy dependency / two declared headers
 
@@ -718,11 +719,11 @@ def _replay_uniform(args: dict) -> str | None:
 
 
 @cond(q=60, t=400, encoded=[er._make_error_serializer, er._render_unauthorized_json, mw._AuthMiddleware.process_request, un.build_proxy_hint],
-      bound="service with / without proxy dependency x two rejections (10 x 4 kinds) on the same serializer x {JSON same detail, JSON other detail, HTML}, then the first one again",
+      bound="service with / without proxy dependency x two rejections (%d x 4 kinds) on the same serializer x {JSON same detail, JSON other detail, HTML}, then the first one again" % _NR1,
       replay=_replay_uniform, signature=lambda args, conc: "C21:proxy-note:not-uniform-or-cache-mixup")
 def proxy_note_uniform_across_failures(proxied: bool, i1: int, i2: int, mode: int) -> bool:
     """
-    pre: 0 <= i1 <= 9 and 0 <= i2 <= 3 and 0 <= mode <= 2
+    pre: 0 <= i1 < _NR1 and 0 <= i2 <= 3 and 0 <= mode <= 2
     post: _
     """
     k2 = _REJ2[0]
